@@ -208,7 +208,7 @@ def judgeLine (a : Acc) (l : String) : Except Verdict Acc := do
           | some g, some t => pure (g, t)
           | _, _ => throw (.badop l)
         | _ => throw (.badop l)
-      match liveSpec false cn 4 te got all with
+      match liveSpec false cn 5 te got all with
       | some r => throw (.specfail r.1 s!"livex {node} {fn}: {r.2}")
       | none => pure { (a.add [s!"livex.{node}", s!"fn.{fn}"]) with nt := a.nt || pts.length ≥ 1 }
     | _ => throw (.badop l)
